@@ -69,7 +69,8 @@ def layouts(draw, tier="quick"):
     rows = [" ".join(".".join(sorted(set(c))) if c else "." for c in row) for row in cells]
     return {"rows": rows, "fence_success_prob": draw(st.sampled_from([0, 0.25, 0.5, 1, 1.0])),
             "goal_reward": draw(st.sampled_from([10, 1])), "step_cost": draw(st.sampled_from([-1, 0])),
-            "collision_cost": draw(st.sampled_from([0, -2])), "agents": nag}
+            "collision_cost": draw(st.sampled_from([0, -2])), "agents": nag,
+            "collision_prob": draw(st.sampled_from([None, None, None, 0.5]))}
 
 
 def parse(rows, GOALS=None):
@@ -111,6 +112,9 @@ def prop_gridgame(spec, ctx):
         goalmap = {"G0": ("A0",), "G1": ("A1",), "G2": ("A2",), "G": ("A0", "A1", "A2")}
         extra = dict(agent_symbols=tuple(names), goal_symbols=tuple(goalmap.items()))
         ctx.event("three_agents")
+    if spec.get("collision_prob") is not None:
+        extra["collision_prob"] = spec["collision_prob"]
+        ctx.event("collision_prob=" + str(spec["collision_prob"]))
     gg = ctx.call("C18.game.construct_raises", TabularGridGame, game_string, fence_success_prob=spec["fence_success_prob"],
                   goal_reward=spec["goal_reward"], step_cost=spec["step_cost"], collision_cost=spec["collision_cost"], **extra)
     w, h, obstacles, goals, walls, fences = parse(spec["rows"], goalmap)
